@@ -114,6 +114,7 @@ Proof.
   - apply andb_prop in H. destruct H as [H1 H2]. apply String.eqb_eq in H1. apply String.eqb_eq in H2. subst; reflexivity.
   - apply Bool.eqb_prop in H. subst; reflexivity.
   - apply Z.eqb_eq in H. subst; reflexivity.
+  - apply String.eqb_eq in H. subst; reflexivity.
   - destruct (type_of a) eqn:Ta; [|discriminate]. destruct (type_of b) eqn:Tb; [|discriminate].
     apply andb_prop in H. destruct H as [_ H]. apply Nat.eqb_eq in H. simpl in Hp. rewrite (Hp H). reflexivity.
 Qed.
@@ -160,7 +161,7 @@ Proof.
   - destruct (h_dyn h) as [ld|]; simpl in Hin; [|contradiction].
     destruct (h_dyn_cb h) eqn:Ecb; simpl in Hin; [|contradiction].
     destruct (h_dyn_continue h) eqn:Ec; simpl in Hin; [contradiction|].
-    destruct Hin as [<-|[]]. rewrite andb_false_l, orb_false_r in Hd. exact Hd.
+    destruct Hin as [<-|[]]. rewrite orb_false_r in Hd. exact Hd.
 Qed.
 
 Lemma check_values_limits_enforced : forall h cvs l,
@@ -172,7 +173,7 @@ Proof.
   - destruct (h_dyn h) as [ld|]; simpl in Hin; [|contradiction].
     destruct (h_dyn_cb h) eqn:Ecb; simpl in Hin; [|contradiction].
     destruct (h_dyn_continue h) eqn:Ec; simpl in Hin; [contradiction|].
-    destruct Hin as [<-|[]]. rewrite andb_false_l, orb_false_r in Hd. exact Hd.
+    destruct Hin as [<-|[]]. rewrite orb_false_r in Hd. exact Hd.
 Qed.
 
 (** * Reads *)
@@ -996,6 +997,7 @@ Proof.
     + rewrite Z.mod_small by lia. destruct (z0 <? 2 ^ 63)%Z eqn:El; [reflexivity|apply Z.ltb_ge in El; lia].
   - apply Z.eqb_eq in Hw. subst. unfold valuer. rewrite Hz. reflexivity.
   - apply Bool.eqb_prop in Hw. subst. unfold valuer. rewrite Hz. reflexivity.
+  - apply String.eqb_eq in Hw. subst. unfold valuer. simpl in Hz. rewrite andb_false_r. reflexivity.
   - apply andb_prop in Hw. destruct Hw as [H1 H2]. destruct name; try discriminate. apply String.eqb_eq in H2. subst.
     unfold valuer. rewrite Hz. reflexivity.
 Qed.
@@ -1087,4 +1089,149 @@ Proof.
   intros h t fs arrival l i Hwf Hi Ha Hl. destruct (batched_wfb_ok _ _ _ _ Hwf Hl) as (Ht & Hp).
   apply (batched_noncomplying_rejected h t fs arrival l i Ht Hi); try assumption.
   apply Hp. apply nth_In. exact Hi.
+Qed.
+
+(** * Batches that mix several handles (they share one batch function) *)
+
+(** A value tuple of the combined clause is justified by a caller of that invocation: it is that caller's
+    own tuple, the caller passed the checks of its own handle, and the tuple pins every limit column of
+    that handle. *)
+Definition tuple_justified (t : table) (cs : list (handle * filter)) (b : list nat)
+           (cols : list string) (tup : list dval) : Prop :=
+  exists i, In i b /\
+    caller_outcome (fst (nth_caller cs i)) t (snd (nth_caller cs i)) = Proceeds /\
+    from_filter (dfilter_of t (snd (nth_caller cs i))) cols tup /\
+    forall l, In l (enforced_limits (fst (nth_caller cs i))) ->
+      forall k v, In (k, v) l -> exists d, read_value t k v d /\ In (k, d) (combine cols tup).
+
+Definition callers_ptrs_ok (cs : list (handle * filter)) : Prop :=
+  forall i l, In l (enforced_limits (fst (nth_caller cs i))) -> filter_ptrs_ok (snd (nth_caller cs i)) l.
+
+Lemma nth_filter_snd : forall cs i, nth_filter (map snd cs) i = snd (nth_caller cs i).
+Proof. intros cs i. unfold nth_filter, nth_caller. change (@nil (string * goval)) with (snd (unrestricted, @nil (string * goval))). apply map_nth. Qed.
+
+Lemma arrival_multi_proceeds : forall t cs arrival b i,
+  arrival_consistent_multi t cs arrival = true -> In b arrival -> In i b ->
+  caller_outcome (fst (nth_caller cs i)) t (snd (nth_caller cs i)) = Proceeds.
+Proof.
+  intros t cs arrival b i Hc Hb Hi. unfold arrival_consistent_multi in Hc.
+  apply andb_prop in Hc. destruct Hc as [Hc _]. apply andb_prop in Hc. destruct Hc as [Hall _].
+  rewrite forallb_forall in Hall.
+  assert (Hin : In i (List.concat arrival)) by (apply in_concat; exists b; split; assumption).
+  specialize (Hall _ Hin). apply andb_prop in Hall. destruct Hall as [Hall _].
+  apply andb_prop in Hall. destruct Hall as [_ Hpr]. apply outcome_is_proceeds_true. exact Hpr.
+Qed.
+
+Theorem run_batched_multi_justified : forall t cs arrival b,
+  table_ok t = true -> callers_ptrs_ok cs ->
+  arrival_consistent_multi t cs arrival = true -> In b arrival ->
+  match make_batch_query (map (dfilter_of t) (map (nth_filter (map snd cs)) b)) with
+  | Some gs => Forall (fun g => Forall (tuple_justified t cs b (fst g)) (snd g)) gs
+  | None => exists i, In i b
+              /\ caller_outcome (fst (nth_caller cs i)) t (snd (nth_caller cs i)) = Proceeds
+              /\ dfilter_of t (snd (nth_caller cs i)) = []
+  end.
+Proof.
+  intros t cs arrival b Ht Hp Hc Hb.
+  set (dfs := map (dfilter_of t) (map (nth_filter (map snd cs)) b)).
+  assert (Hdfs : forall df, In df dfs -> exists i, In i b /\ df = dfilter_of t (snd (nth_caller cs i))).
+  { intros df Hdf. unfold dfs in Hdf. rewrite map_map in Hdf. apply in_map_iff in Hdf.
+    destruct Hdf as (i & <- & Hi). exists i. split; [exact Hi|]. rewrite nth_filter_snd. reflexivity. }
+  assert (Hnames : Forall filter_names_ok dfs).
+  { apply Forall_forall. intros df Hdf. destruct (Hdfs _ Hdf) as (i & _ & ->).
+    unfold filter_names_ok, dfilter_of. apply where_in_order_names. exact Ht. }
+  destruct (make_batch_query dfs) as [gs|] eqn:Eb.
+  - unfold make_batch_query in Eb.
+    match type of Eb with (if ?c then _ else _) = _ => destruct c end; [discriminate|]. inversion Eb; subst gs; clear Eb.
+    apply Forall_forall. intros g Hg. apply in_map_iff in Hg. destruct Hg as ([key [cols tups]] & <- & Hin).
+    apply (proj1 (In_sort_groups _ _ _)) in Hin. destruct (group_filters_inv dfs Hnames key cols tups Hin) as (_ & _ & Hfrom).
+    simpl. apply Forall_forall. intros tup Htup. destruct (Hfrom tup Htup) as (df & Hdf & Hff).
+    destruct (Hdfs _ Hdf) as (i & Hi & ->). exists i. split; [exact Hi|].
+    assert (Hpr := arrival_multi_proceeds _ _ _ _ _ Hc Hb Hi). split; [exact Hpr|]. split; [exact Hff|].
+    intros l Hl k v Hkv. destruct (caller_proceeds _ _ _ Hpr) as ([w Hw] & Hchk).
+    assert (Hcl := check_filter_limits_enforced _ _ _ Hchk Hl).
+    destruct (check_filter_sound _ _ Hcl _ _ Hkv) as (fv & Hlk & He).
+    unfold make_where in Hw. destruct (all_known (t_cols t) (snd (nth_caller cs i))) eqn:Ek; [|discriminate].
+    destruct (all_known_find _ _ _ _ Ek Hlk) as [c Hcol].
+    exists (valuer (c_implicitnull c) v). split; [exists c; split; [exact Hcol|reflexivity]|].
+    destruct Hff as [-> ->]. apply lookup_in_extract. unfold dfilter_of.
+    rewrite (lookup_where_in_order _ _ _ _ _ Hcol Hlk).
+    rewrite (go_eqb_valuer fv v _ He (Hp i l Hl _ _ _ Hkv Hlk)). reflexivity.
+  - unfold make_batch_query in Eb.
+    match type of Eb with (if ?c then _ else _) = _ => destruct c eqn:Ee end; [|discriminate].
+    apply existsb_exists in Ee. destruct Ee as (df & Hdf & Hempty). destruct (Hdfs _ Hdf) as (i & Hi & ->).
+    exists i. split; [exact Hi|]. split; [exact (arrival_multi_proceeds _ _ _ _ _ Hc Hb Hi)|].
+    destruct (dfilter_of t (snd (nth_caller cs i))); [reflexivity|discriminate].
+Qed.
+
+(** Callers that do not pass the check of their own handle are answered with an error and are in no
+    invocation, whatever the other handles of the batch allow. *)
+Theorem batched_multi_noncomplying_rejected : forall t cs arrival i l,
+  table_ok t = true -> i < List.length cs ->
+  filter_ptrs_ok (snd (nth_caller cs i)) l ->
+  arrival_consistent_multi t cs arrival = true ->
+  In l (enforced_limits (fst (nth_caller cs i))) ->
+  ~ Forall (event_confined t l) (fst (run no_limits t (mk_ctx false false) (OQuery (snd (nth_caller cs i)) None))) ->
+  nth i (snd (run_batched_multi t cs arrival)) Proceeds <> Proceeds /\ ~ In i (List.concat arrival).
+Proof.
+  intros t cs arrival i l Ht Hlt Hp Hc Hl Hbad.
+  assert (Hout : caller_outcome (fst (nth_caller cs i)) t (snd (nth_caller cs i)) <> Proceeds).
+  { intros Hpr. apply Hbad. destruct (caller_proceeds _ _ _ Hpr) as ([w Hw] & Hchk).
+    simpl. rewrite Hw. simpl. constructor; [|constructor]. simpl. intros k v Hin.
+    destruct (passing_filter_pins _ _ _ _ Hw (check_filter_limits_enforced _ _ _ Hchk Hl) Hp _ _ Hin) as (d & Hd & Hi).
+    exists d. split; [exact Hd|exact Hi]. }
+  split.
+  - simpl. unfold nth_caller in Hout.
+    rewrite <- (map_nth (fun hf => caller_outcome (fst hf) t (snd hf)) cs (unrestricted, []) i) in Hout.
+    rewrite (nth_indep _ _ Proceeds) in Hout; [exact Hout|]. rewrite map_length. exact Hlt.
+  - intros Hin. apply in_concat in Hin. destruct Hin as (b & Hb & Hi).
+    apply Hout. exact (arrival_multi_proceeds _ _ _ _ _ Hc Hb Hi).
+Qed.
+
+Lemma batched_multi_wfb_ok : forall t cs, batched_multi_wfb t cs = true -> table_ok t = true /\ callers_ptrs_ok cs.
+Proof.
+  intros t cs H. unfold batched_multi_wfb in H. apply andb_prop in H. destruct H as [Ht H]. split; [exact Ht|].
+  intros i l Hl. unfold nth_caller in *. destruct (Nat.ltb i (List.length cs)) eqn:E.
+  - apply Nat.ltb_lt in E. rewrite forallb_forall in H. specialize (H _ (nth_In cs (unrestricted, []) E)).
+    rewrite forallb_forall in H. apply filter_ptrs_okb_ok. apply H. apply enforced_in_handle_limits. exact Hl.
+  - apply Nat.ltb_ge in E. rewrite nth_overflow in Hl by exact E. contradiction.
+Qed.
+
+Lemma c12_multi_justified_b : forall t cs arrival b,
+  batched_multi_wfb t cs = true -> arrival_consistent_multi t cs arrival = true -> In b arrival ->
+  match make_batch_query (map (dfilter_of t) (map (nth_filter (map snd cs)) b)) with
+  | Some gs => Forall (fun g => Forall (tuple_justified t cs b (fst g)) (snd g)) gs
+  | None => exists i, In i b
+              /\ caller_outcome (fst (nth_caller cs i)) t (snd (nth_caller cs i)) = Proceeds
+              /\ dfilter_of t (snd (nth_caller cs i)) = []
+  end.
+Proof. intros t cs arrival b H. destruct (batched_multi_wfb_ok _ _ H) as [Ht Hp]. apply run_batched_multi_justified; assumption. Qed.
+
+Lemma c12_multi_noncomplying_b : forall t cs arrival i l,
+  batched_multi_wfb t cs = true -> i < List.length cs ->
+  arrival_consistent_multi t cs arrival = true ->
+  In l (enforced_limits (fst (nth_caller cs i))) ->
+  ~ Forall (event_confined t l) (fst (run no_limits t (mk_ctx false false) (OQuery (snd (nth_caller cs i)) None))) ->
+  nth i (snd (run_batched_multi t cs arrival)) Proceeds <> Proceeds /\ ~ In i (List.concat arrival).
+Proof.
+  intros t cs arrival i l H Hi Ha Hl. destruct (batched_multi_wfb_ok _ _ H) as [Ht Hp].
+  apply batched_multi_noncomplying_rejected; try assumption. apply Hp. exact Hl.
+Qed.
+
+(** * Several operations in one transaction of the caller *)
+Theorem run_seq_confined : forall h t bt ops l,
+  Forall (fun o => op_wfb h t o = true) ops -> In l (enforced_limits h) ->
+  Forall (event_confined t l) (fst (run_seq h t bt ops)).
+Proof.
+  intros h t bt ops l Hwf Hl. simpl. induction ops as [|o ops IH]; [constructor|].
+  inversion Hwf; subst. simpl. apply Forall_app. split.
+  - destruct (run h t (mk_ctx true bt) o) as [ev out] eqn:E. simpl. eapply c12_confined_b; eauto.
+  - apply IH. assumption.
+Qed.
+
+(** * SelectOptions: the filter part confines the statement whatever the free text evaluates to *)
+Theorem where_pins_sound_with_free_text : forall w k d r (free_text : tri),
+  where_pins w k d -> tri_and (eval_wclause w r) free_text = TT -> in_shard (cell r k) d.
+Proof.
+  intros w k d r x Hp H. apply tri_and_tt in H. destruct H as [H _]. eapply where_pins_sound; eauto.
 Qed.
